@@ -559,6 +559,10 @@ func gepInstType(elemType, src types.Type, indices []value.Value) types.Type {
 		switch index := index.(type) {
 		case constant.Constant:
 			idx = getIndex(index)
+			// Check if index is of vector type.
+			if indexType, ok := index.Type().(*types.VectorType); ok {
+				idx.VectorLen = indexType.Len
+			}
 		default:
 			idx = gep.Index{HasVal: false}
 			// Check if index is of vector type.
@@ -628,9 +632,12 @@ func getIndex(index constant.Constant) gep.Index {
 					}
 				}
 			default:
-				// TODO: remove debug output.
-				panic(fmt.Errorf("support for gep index vector element type %T not yet implemented", elem))
-				//return gep.Index{HasVal: false}
+				// e.g. undef, poison or a constant expression element; the index
+				// vector does not have a concrete value.
+				return gep.Index{
+					HasVal:    false,
+					VectorLen: uint64(len(index.Elems)),
+				}
 			}
 		}
 		return gep.Index{
